@@ -1,11 +1,73 @@
 import StorageModel.Driver.Common
+import StorageModel.Query.Wire
 /- model driver for C19: `run spec` reads case lines on stdin and prints one output line per case
-   (spec = false: the engine model's output; spec = true: the spec's verdict). -/
+   (spec = false: the engine models of boltz and objectz; spec = true: the spec's verdict). -/
 namespace StorageModel.Driver.C19
-open StorageModel.Driver
+open StorageModel StorageModel.Driver StorageModel.Query StorageModel.Query.Wire
 
-def step (_line : String) : String := "not-implemented"
-def specStep (_line : String) : String := "not-implemented"
+def rotate (l : List α) (k : Nat) : List α := l.drop (k % (max l.length 1)) ++ l.take (k % (max l.length 1))
+
+def orderObjs (order : String) (rows : List Row) : List Row :=
+  if order == "rev" then rows.reverse
+  else if order.startsWith "rot" then rotate rows (((order.drop 3).toString).toNat?.getD 0)
+  else rows
+
+def renderObj (r : ObjOutcome (List Row × Int)) : String :=
+  match r with
+  | .ok a => renderAnswer a
+  | .err _ => "err"
+  | .panic => "panic"
+
+def objSortParses (sort : List SortField) : Bool := sort.all fun f => (objSymbolsDecl.lookup f.name).isSome
+
+def modelLine (c : Case) (order : String) : String :=
+  match parsePaging c.skip c.limit with
+  | .error _ => "bolt=err|obj=err|objc=err"
+  | .ok paging =>
+    let q : Query := ⟨c.filter, c.sort, paging⟩
+    let bolt := if !sortParses wireSchema c.sort then "err" else renderExcept (queryIdsC Generated.boltzPaging c.bolt q)
+    if !objSortParses c.sort then s!"bolt={bolt}|obj=err|objc=err" else
+    let ost : ObjStore := ⟨objSymbolsDecl, some (orderObjs order ((c.rows.getD []).map (·.row)))⟩
+    let pf := Generated.objectzPaging
+    let obj := renderObj (objQuery pf ost q)
+    let paging1 := (setPaging pf paging).1
+    let r2 := renderObj (objQuery pf ost { q with paging := paging1 })
+    let paging2 := (setPaging pf paging1).1
+    s!"bolt={bolt}|obj={obj}|objc={obj}/{r2}/{renderOpt paging2.skip}:{renderOpt paging2.limit}"
+
+def specLine (c : Case) : String :=
+  match parsePaging c.skip c.limit with
+  | .error _ => "bolt=err|obj=err|objc=err"
+  | .ok _ =>
+    let berr := !sortParses wireSchema c.sort
+    let oerr := !objSortParses c.sort
+    match newRowComparator wireSchema c.sort with
+    | .ok cmp =>
+      let rows := (c.rows.getD []).map (·.row)
+      let m := rows.filter fun r => sat r c.filter
+      let skip := specSkip c.skip
+      let limit := specLimit c.limit
+      let ans := renderIds (page cmp skip limit m) ++ "#" ++ toString (total m)
+      let state := toString (skip.getD 0) ++ ":" ++ (match limitRows limit with | none => toString maxI64 | some n => toString n)
+      let bolt := if berr then "err" else ans
+      if oerr then s!"bolt={bolt}|obj=err|objc=err" else s!"bolt={bolt}|obj={ans}|objc={ans}/{ans}/{state}"
+    | .error _ => "bolt=err|obj=err|objc=err"
+
+def parseLine (line : String) : Option (Case × String) :=
+  match splitSp line with
+  | ["o", rows, filter, sort, skip, limit, order] =>
+    (parseCase [rows, filter, sort, skip, limit, "-", "-"]).map fun c => (c, order)
+  | _ => none
+
+def step (line : String) : String :=
+  match parseLine line with
+  | some (c, order) => modelLine c order
+  | none => "bad-case"
+
+def specStep (line : String) : String :=
+  match parseLine line with
+  | some (c, _) => specLine c
+  | none => "bad-case"
 
 def run (spec : Bool) : IO Unit := forEachLine (if spec then specStep else step)
 
